@@ -156,7 +156,7 @@ Eval == /\ e.ev = "eval" /\ Common
 
 Collect == /\ e.ev = "collect" /\ Common /\ Pass
 
-Other == /\ e.ev \in {"end", "panic", "hang", "mutate", "args", "note", "crash", "fault", "corrupt"} /\ Common /\ Pass
+Other == /\ e.ev \in {"end", "panic", "hang", "mutate", "args", "note", "crash", "fault", "corrupt", "shape"} /\ Common /\ Pass
 
 \* FlushAll / FlushAllAndCommit / Commit
 FlushEv == /\ e.ev = "flush" /\ Common
@@ -423,7 +423,10 @@ DirOK(o, S) ==
   /\ \A i \in 1..Len(d.files) : /\ d.files[i][3] = "ok"
                                  /\ d.files[i][1] \in DOMAIN S => o.recs[d.files[i][2]] = S[d.files[i][1]]
 Conf_C18 ==
-  At => ((E.ev = "obs" /\ "dir" \in DOMAIN E /\ ~hdr.cfg.async) => DirOK(E, store))
+  At =>
+  /\ (E.ev = "obs" /\ "dir" \in DOMAIN E /\ ~hdr.cfg.async) => DirOK(E, store)
+  \* once Close has returned the layout is exact under every configuration
+  /\ (E.ev = "reopen" /\ E.close /\ "dir" \in DOMAIN E) => DirOK(E, store)
 
 \* C19 (argument part): malformed search arguments give an error, never a panic, never objects
 ArgOK(x, empty) ==
@@ -594,6 +597,27 @@ Conf_C17 ==
   /\ E.ev = "obs" => ReadsOK(E, store) /\ QueriesOK(E, store)
   /\ E.ev = "tick" => NoResurrection(E.dir, E.recs)
   /\ (E.ev = "reopen" /\ E.close /\ "dir" \in DOMAIN E) => (E.c = "ok" /\ AllOnDisk(E.dir, E.recs) /\ Committed(E.dir))
+
+\* C17 (shape part): a directory populated under one declaration of the type and opened under another
+ResOf(E_, name) == LET i == CHOOSE i \in 1..Len(E_.res) : E_.res[i][1] = name IN E_.res[i][2]
+ShapeOK(E_) ==
+  /\ E_.setup = "ok"
+  /\ \A i \in 1..Len(E_.res) : E_.res[i][2] # "panic"
+  /\ CASE E_.rel = "shape" ->
+             \* field added, removed or retyped: every operation is refused with the structure error, nothing is touched
+             /\ \A nm \in {"create", "create2", "count", "all", "search", "exist", "schema", "put", "many", "delete", "deleteall", "repair", "flush"} :
+                   ResOf(E_, nm) = "structchanged"
+             /\ E_.same /\ E_.reopen_a = "ok" /\ E_.count_a = 3
+       [] E_.rel = "constraint" ->
+             /\ ResOf(E_, "create") = "fielddesc" /\ ResOf(E_, "create2") = "fielddesc" /\ E_.same_after_reads
+       [] E_.rel = "ext" ->
+             /\ ResOf(E_, "create") = "extmismatch" /\ ResOf(E_, "create2") = "extmismatch" /\ E_.same_after_reads
+       [] E_.rel = "compat" ->
+             \* Create with a compatible schema is idempotent and preserves data
+             /\ \A nm \in {"create", "create2", "count", "all", "search", "exist", "schema", "put", "many", "delete", "flush", "close"} : ResOf(E_, nm) = "ok"
+             /\ E_.count = 3 /\ E_.same_after_reads /\ E_.reopen_a = "ok" /\ E_.count_a = 5
+       [] OTHER -> FALSE
+Conf_C17S == At => (E.ev = "shape" => ShapeOK(E))
 
 \* C15 hooks gate every insertion path
 HooksOK(hooks, i, o) ==
